@@ -11,12 +11,19 @@ require (
 require (
 	github.com/cenkalti/backoff/v7 v7.0.0 // indirect
 	github.com/cenkalti/log v1.0.0 // indirect
+	github.com/gofrs/uuid v4.4.0+incompatible // indirect
+	github.com/golang/groupcache v0.0.0-20200121045136-8c9f03a8e57e // indirect
 	github.com/google/btree v1.1.3 // indirect
 	github.com/hashicorp/errwrap v1.1.0 // indirect
 	github.com/hashicorp/go-multierror v1.1.1 // indirect
+	github.com/jackpal/bencode-go v1.0.0 // indirect
 	github.com/juju/ratelimit v1.0.2 // indirect
 	github.com/mattn/go-isatty v0.0.12 // indirect
+	github.com/nictuku/dht v0.0.0-20201226073453-fd1c1dd3d66a // indirect
+	github.com/nictuku/nettools v0.0.0-20150117095333-8867a2107ad3 // indirect
+	github.com/powerman/rpc-codec v1.2.2 // indirect
 	github.com/rcrowley/go-metrics v0.0.0-20201227073835-cf1acfcdf475 // indirect
+	github.com/youtube/vitess v3.0.0-rc.3+incompatible // indirect
 	github.com/zeebo/bencode v1.0.0 // indirect
 	golang.org/x/sync v0.22.0 // indirect
 	golang.org/x/sys v0.47.0 // indirect
